@@ -90,7 +90,10 @@ WriteCheck(t, i) ==
          ELSE WriteCheck(t, i + 1)
 
 JudgeReader(t) ==
-    IF t.received # t.slen THEN "triv"
+    \* the reader reported end-of-stream although the peer had neither closed nor timed out (bytes were still to come): what it
+    \* delivered then depends on how the transport delivers - unless it is what the file stream gives anyway
+    IF t.received # t.slen /\ t.sockend = "eof" /\ t.sockitems # t.fileitems THEN "C10:iteration-ended-before-the-peer-closed-or-timed-out"
+    ELSE IF t.received # t.slen THEN "triv"
     ELSE IF t.sockend # "eof" THEN "C10:socket-run-did-not-end-normally:" \o t.sockend
     ELSE IF t.sockitems # t.fileitems THEN "C10:items-differ-from-file-stream"
     ELSE IF t.sockpd # t.filepd THEN "C10:parsed-differs-from-file-stream"
